@@ -27,7 +27,7 @@ m = {
     "setup_cmd": "cd /verif && ./setup.sh",
     "hooks": {
         "guard": "verif",
-        "enable": "Go build tag: every check compiles /repo's working tree with 'go test -c -tags verif', which adds verif_hooks.go (func VerifDumpAST); without the tag the file is not compiled",
+        "enable": "Go build tag: every check compiles /repo's working tree with 'go test -c -tags verif', which adds verif_hooks.go (funcs VerifDumpAST, VerifFunctionNames); without the tag the file is not compiled",
         "baseline_off_cmd": "/verif/tools/baseline.sh /repo",
         "source_commits": plan.HOOK_COMMITS,
         "add_only": True,
